@@ -23,6 +23,8 @@ func runC17(c *Ctx) {
 
 	ruleErrPassthrough(c)
 	ruleNoSMTPErrorMutation(c)
+	R.Rule("R-verdict-flow", "E4 value flow", "the reply to DATA/BDAT LAST is computed by dataErrorToStatus from the backend's own result: no handler replaces the backend's error on the way", 4)
+	ruleVerdictSources(c)
 
 	ruleEnhDefault(c)
 
